@@ -110,6 +110,28 @@ def standin_bounded(prop, name=None, extra_args=()):
     return run
 
 
+def external_bounded(name, module, quick_args, thorough_args, bound_text):
+    """bounded stand-in implemented by a helper module under /verif (one JSON object on stdout)."""
+    def run(pc):
+        env = dict(os.environ)
+        env["PYTHONPATH"] = VERIF
+        env.setdefault("PYVC_REPO", front.REPO)
+        args = list(quick_args if pc.tier == "quick" else thorough_args) + ["--seed", str(pc.seed)]
+        p = subprocess.run([VENV_PY, "-m", module] + args, capture_output=True, text=True, cwd=VERIF, env=env, timeout=3300)
+        if p.returncode != 0:
+            raise RuntimeError(f"stand-in {module} crashed: {p.stderr[-600:]}")
+        r = json.loads(p.stdout)
+        fails = []
+        for f in r.get("failures", []):
+            fails.append({"match": f.get("match"), "concrete_call": {k: f.get(k) for k in ("config", "schedule", "example", "schema", "class", "how") if f.get(k) is not None},
+                          "observed": f.get("detail")})
+        return {"name": name, "label": "bounded", "bound": bound_text + f", seed {pc.seed}", "cases": r.get("cases", 0),
+                "distinct_nontrivial": r.get("distinct_nontrivial", 0), "n_failures": r.get("n_failures", 0),
+                "exhaustive": r.get("exhaustive", False), "samples": r.get("samples", [])[:3], "failures": fails,
+                "skipped": r.get("skipped", [])}
+    return run
+
+
 class PropertyCheck:
     def __init__(self, prop, tier, seed):
         self.prop = prop
@@ -164,7 +186,7 @@ class PropertyCheck:
     # ---------------------------------------------------------------------------------------
     def selected(self):
         only = getattr(self.pmod, "ONLY", None)
-        fns = [c for c in self.contracts if self.prop in c.props and not c.inline and (only is None or c.qualname in only)]
+        fns = [c for c in self.contracts if self.prop in c.props and not c.inline and not c.assumed and (only is None or c.qualname in only)]
         lems = [L for L in self.lemmas if self.prop in L.props]
         # lemmas used (transitively) by selected items must be proved in this run too
         need = set()
